@@ -173,7 +173,11 @@ func runOldSchema(o *opts) {
 		// a commit on top records the current workspace faithfully
 		abs := filepath.Join(p.Root, c.artPath)
 		ek := applyEdit(rr, p, c, abs)
-		if ek != "" && ek != "dangle" && ek != "retarget" && ek != "drop-object" {
+		if ek == "root-to-file" || ek == "delete-root" {
+			// the artifact itself is gone or no directory any more: commit refuses
+			t, _ = p.do(Cmd{Kind: "commit", Copy: rr.chance(1, 2)}, nil, want(5), nil, nil)
+			tagIt(t, "commit on top after "+ek)
+		} else if ek != "" && ek != "dangle" && ek != "retarget" && ek != "drop-object" {
 			t, _ = p.do(Cmd{Kind: "commit", Copy: rr.chance(1, 2)}, nil, want(11, 7), nil, nil)
 			tagIt(t, "commit on top after "+ek)
 			t, _ = p.do(Cmd{Kind: "status"}, nil, want(11, 15), nil, nil)
